@@ -18,6 +18,10 @@ BDD_PROPS = ["C%02d" % i for i in range(1, 17)]
 SPECS = {}
 for _p in BDD_PROPS:
     SPECS[_p] = {"domain": "bdd", "profiles": ("release",)}
+SPECS["C17"] = {"domain": "table", "profiles": ("release",), "also_bdd": True}
+SPECS["C18"] = {"domain": "cache", "profiles": ("release",)}
+SPECS["C19"] = {"domain": "raw", "profiles": ("release", "debug")}
+SPECS["C20"] = {"domain": "eda", "profiles": ("release", "debug")}
 
 
 def corpus_histories(pid):
@@ -89,7 +93,18 @@ def shrink_bdd(lines, pid, kind, wdir, tag):
 def run_property(pid, tier, seed, spec):
     if spec["domain"] != "bdd":
         import standalone
-        return standalone.run_property(pid, tier, seed, spec)
+        cov = standalone.run_property(pid, tier, seed, spec)
+        if spec.get("also_bdd"):
+            # the same property on the manager's own node store (the crate's hash functions, collections through the
+            # real collect_garbage): state dumps compared with the model, chain invariants checked on the crate
+            cov2 = run_property(pid, tier, seed, {"domain": "bdd", "profiles": ("release",)})
+            cov["failures"] += cov2["failures"]
+            cov["diffs"] += cov2["diffs"]
+            cov["bdd_level"] = {k: cov2[k] for k in ("histories", "evaluations", "exact_agreement", "canonical_agreement", "numbering_diverged", "oracle_evaluations", "ops_by_kind", "configs") if k in cov2}
+            cov["evaluations"] += cov2["evaluations"]
+            cov["histories"] += cov2["histories"]
+            cov["traces_validated_against_impl"] += cov2["traces_validated_against_impl"]
+        return cov
     wdir = os.path.join(H.WORK, pid)
     os.makedirs(wdir, exist_ok=True)
     os.makedirs(os.path.join(H.WORK, "replays"), exist_ok=True)
